@@ -582,7 +582,7 @@ fn run(ctx: &mut Ctx) {
         }
     }
     // larger sampled matrices (4-6 rows) to reach column reordering / fallback-row copying
-    let big = tier.pick(40u64, 3_000u64) / ctx.nshards as u64 + 1;
+    let big = tier.pickn(40u64, 3_000u64) / ctx.nshards as u64 + 1;
     for i in 0..big {
         let mut rng = Rng::keyed(seed, "c06-big", ctx.shard as u64, i);
         let mut batch = Vec::new();
